@@ -11,6 +11,8 @@ impl<'de, R: Reader<'de>> Parser<R> {
                 &&& (res.is_ok() ==> final(self).read.idx() == c + 1)
                 &&& final(self).read.idx() >= old(self).read.idx()
             }),
+            // every error is made by Parser::error: positioned inside the input (C20)
+            res.is_err() ==> err_ok(res->Err_0, old(self).read.data()),
 //@after /if ch ==/
                 proof { lemma_ws_end_stop(self.read.data(), self.read.idx() as int, self.read.idx() as int); }
 //@before /match self.skip_space\(\) \{/
@@ -27,6 +29,8 @@ impl<'de, R: Reader<'de>> Parser<R> {
                 &&& (res.is_ok() <==> (c < s.len() && s[c] == 0x5d))
                 &&& (res.is_ok() ==> final(self).read.idx() == c + 1)
             }),
+            // every error is made by Parser::error: positioned inside the input (C20)
+            res.is_err() ==> err_ok(res->Err_0, old(self).read.data()),
 //@end
 
 //@extract file=src/parser.rs impl="Parser<R>" fn=skip_object
@@ -38,6 +42,8 @@ impl<'de, R: Reader<'de>> Parser<R> {
             res.is_ok() <==> obj_end(old(self).read.data(), old(self).read.idx() as int).is_some(),
             res.is_ok() ==> final(self).read.idx() == obj_end(old(self).read.data(), old(self).read.idx() as int).unwrap(),
             final(self).read.idx() >= old(self).read.idx(),
+            // every error is made by Parser::error: positioned inside the input (C20)
+            res.is_err() ==> err_ok(res->Err_0, old(self).read.data()),
         decreases old(self).read.data().len() - old(self).read.idx(), 2nat
 //@before /match self.skip_space\(\) \{/ #1
         let ghost s = self.read.data();
@@ -70,6 +76,8 @@ impl<'de, R: Reader<'de>> Parser<R> {
             res.is_ok() <==> arr_end(old(self).read.data(), old(self).read.idx() as int).is_some(),
             res.is_ok() ==> final(self).read.idx() == arr_end(old(self).read.data(), old(self).read.idx() as int).unwrap(),
             final(self).read.idx() >= old(self).read.idx(),
+            // every error is made by Parser::error: positioned inside the input (C20)
+            res.is_err() ==> err_ok(res->Err_0, old(self).read.data()),
         decreases old(self).read.data().len() - old(self).read.idx(), 2nat
 //@before /match self.skip_space_peek\(\) \{/
         let ghost s = self.read.data();
@@ -103,6 +111,8 @@ impl<'de, R: Reader<'de>> Parser<R> {
                 &&& (s[p] == 0x22 ==> (is_esc_status(res.unwrap().1) <==> has_bs(s, p + 1, e)))
             }),
             final(self).read.idx() >= old(self).read.idx(),
+            // every error is made by Parser::error: positioned inside the input (C20)
+            res.is_err() ==> err_ok(res->Err_0, old(self).read.data()),
         decreases old(self).read.data().len() - old(self).read.idx(), 0nat
 //@before /let ch = self.skip_space\(\);/
         let ghost s = self.read.data();
@@ -119,6 +129,8 @@ impl<'de, R: Reader<'de>> Parser<R> {
             // for a checked reader (idx <= len): Ok iff only whitespace is left
             res.is_ok() <==> ws_end(old(self).read.data(), old(self).read.idx() as int) == old(self).read.data().len(),
             res.is_err() ==> res.unwrap_err().has_pos,
+            // every error is made by Parser::error: positioned inside the input (C20)
+            res.is_err() ==> err_ok(res->Err_0, old(self).read.data()),
 //@before /let exceed =/ #1
         proof { lemma_ws_end_bounds(self.read.data(), self.read.idx() as int); }
 //@before /let last =/
